@@ -329,6 +329,7 @@ class DC:
         self.getkey_log: list[dict] = []
         self._tables: dict[tuple, KeySet] = {}
         self.epm_extra_towers: list[bytes] = []
+        self.epm_towers_before: list[bytes] = []   # towers without a TCP floor placed first
         self.rng_later = None
         self.name_pad = 0
         self.force_reply: t.Optional[t.Callable[[t.Any, dict], t.Optional[tuple]]] = None
@@ -561,7 +562,7 @@ class Connection:
             self.log(**ev_)
             return finish_pdu(PT_FAULT, PFC_FIRST | PFC_LAST, h["call_id"], fault_body(0x6F7))
         self.log(**ev_)
-        towers = [tower_octets(tcp_tower(ISD_KEY, self.dc.isd_port))] + self.dc.epm_extra_towers
+        towers = self.dc.epm_towers_before + [tower_octets(tcp_tower(ISD_KEY, self.dc.isd_port))] + self.dc.epm_extra_towers
         return finish_pdu(PT_RESPONSE, PFC_FIRST | PFC_LAST, h["call_id"], response_body(ept_map_response(towers), rq["ctx"]))
 
     def get_key(self, h: dict, rq: dict, stub: bytes, ev_: dict, auth: t.Optional[dict]) -> bytes:
